@@ -17,38 +17,46 @@ def known_findings():
     return out
 
 def proof_status(pid, tier='quick'):
-    """build the property's theorem module, audit axioms of every theorem in it, grep for forbidden constructs"""
+    """build the property's theorem modules, audit axioms of every theorem in them, grep for forbidden constructs"""
     reg = registry.REG.get(pid, {})
-    mod = reg.get('module')
-    res = {'module': mod, 'theorems': [], 'ok': True, 'errors': []}
-    if not mod:
+    mods = reg.get('module')
+    if isinstance(mods, str):
+        mods = [mods]
+    mods = list(mods or []) + [m for m in reg.get('extra_modules', []) if os.path.exists(os.path.join(TFV, m.replace('.', '/') + '.lean'))]
+    res = {'module': ' '.join(mods), 'theorems': [], 'ok': True, 'errors': []}
+    if not mods:
         return res
-    path = os.path.join(TFV, mod.replace('.', '/') + '.lean')
-    if not os.path.exists(path):
-        res['ok'] = False
-        res['errors'].append('theorem module %s is missing' % mod)
-        return res
+    for mod in mods:
+        path = os.path.join(TFV, mod.replace('.', '/') + '.lean')
+        if not os.path.exists(path):
+            res['ok'] = False
+            res['errors'].append('theorem module %s is missing' % mod)
+            return res
     with pipeline.Lock(os.path.join(pipeline.BUILD, 'lake.lock')):
-        rc, out = pipeline.sh(['lake', 'build', mod], cwd=TFV, timeout=3600)
+        rc, out = pipeline.sh(['lake', 'build'] + mods, cwd=TFV, timeout=3600)
         if rc != 0:
             res['ok'] = False
-            res['errors'].append('lake build %s failed: %s' % (mod, out[-1500:]))
+            res['errors'].append('lake build %s failed: %s' % (' '.join(mods), out[-1500:]))
             return res
-        audit = os.path.join(pipeline.BUILD, 'Audit_%s.lean' % pid)
-        with open(audit, 'w') as f:
-            f.write(AUDIT_TEMPLATE.replace('MODULE', mod))
-        rc, out = pipeline.sh(['lake', 'env', 'lean', audit], cwd=TFV, timeout=1200)
-    if rc != 0:
-        res['ok'] = False
-        res['errors'].append('axiom audit failed to run: ' + out[-1500:])
-        return res
-    if tier == 'thorough':
-        # independent re-check of the compiled module by leanchecker
-        rc2, out2 = pipeline.sh(['lake', 'env', 'leanchecker', mod], cwd=TFV, timeout=3600)
-        res['leanchecker'] = 'ok' if rc2 == 0 else out2[-800:]
-        if rc2 != 0:
-            res['ok'] = False
-            res['errors'].append('leanchecker rejected %s: %s' % (mod, out2[-800:]))
+        outs = ''
+        for k, mod in enumerate(mods):
+            audit = os.path.join(pipeline.BUILD, 'Audit_%s_%d.lean' % (pid, k))
+            with open(audit, 'w') as f:
+                f.write(AUDIT_TEMPLATE.replace('MODULE', mod))
+            rc, out = pipeline.sh(['lake', 'env', 'lean', audit], cwd=TFV, timeout=1200)
+            if rc != 0:
+                res['ok'] = False
+                res['errors'].append('axiom audit of %s failed to run: %s' % (mod, out[-1500:]))
+                return res
+            outs += out
+            if tier == 'thorough':
+                # independent re-check of the compiled module by leanchecker
+                rc2, out2 = pipeline.sh(['lake', 'env', 'leanchecker', mod], cwd=TFV, timeout=3600)
+                res['leanchecker'] = 'ok' if rc2 == 0 and res.get('leanchecker', 'ok') == 'ok' else out2[-800:]
+                if rc2 != 0:
+                    res['ok'] = False
+                    res['errors'].append('leanchecker rejected %s: %s' % (mod, out2[-800:]))
+    out = outs
     for m in re.finditer(r'AXIOMS (\S+) \[(.*?)\]', out):
         name, axs = m.group(1), [a.strip() for a in m.group(2).split(',') if a.strip()]
         bad = [a for a in axs if a not in AXIOMS_OK]
@@ -56,9 +64,9 @@ def proof_status(pid, tier='quick'):
         if bad:
             res['ok'] = False
             res['errors'].append('theorem %s depends on axioms %s' % (name, bad))
-    # source-level scan of the property module and everything under Spec/ Lemmas/ Properties/
+    # source-level scan of everything under Spec/ Lemmas/ Properties/ Hand/
     forb = re.compile(r'\bsorry\b|\badmit\b|^axiom\s|native_decide|bv_decide|implemented_by|\bunsafe\s|maxHeartbeats 0\b', re.M)
-    for d in ('Spec', 'Lemmas', 'Properties'):
+    for d in ('Spec', 'Lemmas', 'Properties', 'Hand'):
         dd = os.path.join(TFV, 'TFV', d)
         if not os.path.isdir(dd):
             continue
@@ -68,7 +76,6 @@ def proof_status(pid, tier='quick'):
                 src_nc = re.sub(r'/-.*?-/', '', src, flags=re.S)
                 src_nc = re.sub(r'--.*', '', src_nc)
                 if forb.search(src_nc):
-                    # only fatal if this module is (transitively) ours: conservative — flag any
                     res['errors'].append('forbidden construct in %s/%s' % (d, fn))
                     res['ok'] = False
     need = reg.get('theorems', [])
@@ -76,7 +83,7 @@ def proof_status(pid, tier='quick'):
     for t in need:
         if t not in have:
             res['ok'] = False
-            res['errors'].append('registered theorem %s not found in %s' % (t, mod))
+            res['errors'].append('registered theorem %s not found in %s' % (t, ' '.join(mods)))
     return res
 
 AUDIT_TEMPLATE = '''import Lean
